@@ -21,6 +21,8 @@ func init() {
 		pd.Explanation += " " + explain
 	}
 	wrap("C01", c01Extra, "R9 (added): the wildcard next-closer check in Resolver.answer sees only authority records already filtered to the validated signer zone (resp.Ns = FilterRRsToZone(resp.Ns, signer) precedes it on every path).")
+	wrap("C13", c13Extra, "R8 (added): a stored failure is turned into a hit (failureEntry.hit) only behind now.Before(<that entry>.retryAfter) — on the Msg and the wire lookup alike — so suppression ends with the backoff.")
+	wrap("C09", c09Extra, "R10 (added): tombstone precedence is unconditional — in the sweep over the loaded state and in the merge loops, the only conditions that may skip a tombstone check are the entry's own Revoked/Removed marker state.")
 	wrap("C12", c12Extra, "R6 (added): the work ledger follows every resolveState — each construction of a resolveState sets work from the current state's work, the request context's ledger, or the caller-supplied ledger.")
 }
 
@@ -137,5 +139,134 @@ func c12Extra(c *Ctx) {
 	}
 	if n < 3 {
 		c.unresolved("C12-R6", "resolveState constructions", fmt.Sprintf("expected ≥3, found %d", n))
+	}
+}
+
+func c13Extra(c *Ctx) {
+	c.Doc("C13-R8", "every call of (*failureEntry).hit in package cache is behind the true edge of now.Before(e.retryAfter) for the same entry e: expired failure state (kept as streak history) is never served")
+	hit := c.fobj("C13-R8", "middleware/cache.(*failureEntry).hit")
+	retry := c.field("C13-R8", "middleware/cache.failureEntry.retryAfter")
+	before := c.fobj("C13-R8", "time.Time.Before")
+	if hit == nil || retry == nil || before == nil {
+		return
+	}
+	sites := c.CallSites(hit)
+	for _, s := range sites {
+		recv := Desc(callArg(s.Instr, 0)).String()
+		live := OnTrue("now.Before(entry.retryAfter)", func(e *Expr) bool {
+			if !CallTo(before)(e) || e.K != ECall || len(e.Args) != 2 {
+				return false
+			}
+			a := strip(e.Args[1])
+			return a != nil && a.K == EField && a.Var == retry && a.X.String() == recv
+		})
+		key := "C13-R8|" + fnKey(TopLevel(s.Fn)) + "|entry.hit()"
+		if fnKey(TopLevel(s.Fn)) == "(*middleware/cache.FailureCache).record" {
+			c.ok("C13-R8", key, instrPos(s.Instr), "exempt: record returns the state it has just written or renewed (retryAfter = now + backoff), not a lookup")
+			continue
+		}
+		if ug, tr := c.unguarded(s.Instr, []Barrier{live}, s.Fn); ug {
+			c.violation("C13-R8", key, instrPos(s.Instr), "a cached failure is served without testing that its backoff is still running (now.Before(entry.retryAfter)); path "+tr)
+		} else {
+			c.ok("C13-R8", key, instrPos(s.Instr), "hit() behind now.Before(entry.retryAfter)")
+		}
+	}
+	if len(sites) < 4 {
+		c.unresolved("C13-R8", "failureEntry.hit call sites", fmt.Sprintf("expected ≥4, found %d", len(sites)))
+	}
+}
+
+func c09Extra(c *Ctx) {
+	c.Doc("C09-R10", "AutoTA: every branch that decides whether a state entry is checked against the tombstones tests only that entry's own State (Revoked/Removed marker) — no run-level flag can exempt entries loaded from the state file")
+	fn := c.fn("C09-R10", "middleware/resolver.(*Resolver).AutoTA")
+	fp := c.fobj("C09-R10", "middleware/resolver.dnskeyMaterialFP")
+	stateF := c.field("C09-R10", "middleware/resolver.TrustAnchor.State")
+	if fn == nil || fp == nil || stateF == nil {
+		return
+	}
+	// tombstone lookups whose key is the fingerprint of a state entry's key: tombstones[dnskeyMaterialFP(ta.DNSKey)]
+	n := 0
+	for _, f := range WithAnons(fn) {
+		for _, b := range f.Blocks {
+			for _, in := range b.Instrs {
+				lk, ok := in.(*ssa.Lookup)
+				if !ok || !lk.CommaOk {
+					continue
+				}
+				ke := Desc(lk.Index)
+				if !CallTo(fp)(ke) {
+					continue
+				}
+				// only the sweeps that range over a map of *TrustAnchor (loop variable from Next)
+				if !Contains(func(x *Expr) bool { return x.K == ERange || (x.K == EExtract && x.X != nil && x.X.K == ERange) })(ke) {
+					continue
+				}
+				// only the precedence sweep: a tombstone hit deletes the entry from the ranged state map
+				sweep := false
+				if lk.Referrers() != nil {
+					for _, rf := range *lk.Referrers() {
+						ex, ok := rf.(*ssa.Extract)
+						if !ok || ex.Index != 1 || ex.Referrers() == nil {
+							continue
+						}
+						for _, ur := range *ex.Referrers() {
+							iff, ok := ur.(*ssa.If)
+							if !ok {
+								continue
+							}
+							for _, x := range iff.Block().Succs[0].Instrs {
+								if cl, ok := x.(*ssa.Call); ok {
+									if bi, ok := cl.Call.Value.(*ssa.Builtin); ok && bi.Name() == "delete" {
+										sweep = true
+									}
+								}
+							}
+						}
+					}
+				}
+				if !sweep {
+					continue
+				}
+				n++
+				// walk the dominating branch conditions between the loop head and the lookup: each must be a State comparison
+				key := "C09-R10|AutoTA|tombstone check exemption"
+				bad := ""
+				blk := b
+				for hops := 0; hops < 6 && blk != nil; hops++ {
+					idom := blk.Idom()
+					if idom == nil || len(idom.Instrs) == 0 {
+						break
+					}
+					iff, ok := idom.Instrs[len(idom.Instrs)-1].(*ssa.If)
+					if !ok {
+						break
+					}
+					cond := condOf(iff)
+					a, _ := Truthy(cond)
+					isState := false
+					if a != nil && a.K == EBin {
+						if FieldIs(stateF)(a.X) || FieldIs(stateF)(a.Y) {
+							isState = true
+						}
+					}
+					if a != nil && (a.K == ERange || (a.K == EExtract && a.X != nil && a.X.K == ERange)) {
+						break // the range loop's own "more elements" test
+					}
+					if !isState {
+						bad = trunc(cond.String(), 140)
+						break
+					}
+					blk = idom
+				}
+				if bad != "" {
+					c.violation("C09-R10", key, instrPos(in), "a condition other than the entry's own marker state decides whether the tombstone check runs: "+bad)
+				} else {
+					c.ok("C09-R10", key, instrPos(in), "tombstone check guarded only by the entry's own State")
+				}
+			}
+		}
+	}
+	if n == 0 {
+		c.unresolved("C09-R10", "AutoTA tombstone sweep", "no tombstones[dnskeyMaterialFP(entry key)] lookup over a ranged state map found")
 	}
 }
